@@ -505,7 +505,8 @@ def run_case(ctx, family, params):
         modes = list(QUERY_MODES) + [str(m) for m in rng.choice(QUERY_MODES, int(rng.integers(2, 8)))]
         for m in modes:
             do_periodic_query(ctx, g, A, full, m)
-        periodic_clone_step(ctx, g, A, full)  # every cell kind / placement / wrap: clone after the tree was built and used
+        if int(params.get("k", 0)) % 2 == 0 or rng.random() < 0.3:
+            periodic_clone_step(ctx, g, A, full)  # every cell kind / placement / wrap: clone after the tree was built and used
     elif family == "history":
         nops = int(rng.integers(5, 21))
         live = [g]
